@@ -9,6 +9,7 @@ import (
 
 	ipfslog "berty.tech/go-ipfs-log"
 	"berty.tech/go-ipfs-log/iface"
+	"berty.tech/go-orbit-db/verifhook"
 	cid "github.com/ipfs/go-cid"
 	"github.com/libp2p/go-libp2p/core/event"
 	"github.com/libp2p/go-libp2p/p2p/host/eventbus"
@@ -194,6 +195,7 @@ func (r *replicator) Load(ctx context.Context, entries []ipfslog.Entry) {
 
 // processOne wait for a process slot then process one element of the queue
 func (r *replicator) processOne(ctx context.Context, wg *sync.WaitGroup) error {
+	verifhook.Point("replicator.before-slot", r)
 	// wait for a process slot
 	e, err := r.waitForProcessSlot(ctx)
 	if err != nil {
@@ -204,6 +206,7 @@ func (r *replicator) processOne(ctx context.Context, wg *sync.WaitGroup) error {
 		r.logger.Warn("process item ended", zap.Error(err))
 	}
 
+	verifhook.Point("replicator.before-done", r)
 	// mark this process has done
 	r.processEntryDone(e)
 	return nil
@@ -328,6 +331,7 @@ func (r *replicator) waitForProcessSlot(ctx context.Context) (e processItem, err
 	r.tasks[e.GetHash()] = stateFetching
 
 	r.muProcess.Unlock()
+	verifhook.Point("replicator.after-dequeue", r)
 	return
 }
 
